@@ -354,7 +354,7 @@ def _creates_info_file(A: Analysis, fn: FuncInfo) -> bool:
     for c in A.calls(fn):
         if (dotted(c.func) == "open" or (isinstance(c.func, ast.Attribute) and c.func.attr == "open")) and c.args:
             mode = c.args[1] if len(c.args) > 1 else kwarg(c, "mode")
-            target = c.args[0] if dotted(c.func) == "open" else c.func.value
+            target = A.expand(c.args[0] if dotted(c.func) == "open" else c.func.value, fn)
             if any(isinstance(k, ast.Constant) and isinstance(k.value, str) and "_info.json" in k.value for k in ast.walk(target)):
                 if mode is not None and isinstance(mode, ast.Constant) and "w" in str(mode.value):
                     return True
@@ -405,7 +405,7 @@ def check_c35(A: Analysis, col: Collector):
             for e in n.exprs:
                 for c in [e] + list(walk_own(e)):
                     if isinstance(c, ast.Call) and isinstance(c.func, ast.Attribute) and c.func.attr == "unlink":
-                        if any(isinstance(k, ast.Constant) and isinstance(k.value, str) and "_info.json" in k.value for k in ast.walk(c.func.value)):
+                        if any(isinstance(k, ast.Constant) and isinstance(k.value, str) and "_info.json" in k.value for k in ast.walk(A.expand(c.func.value, fn))):
                             return True
             return False
 
